@@ -19,7 +19,7 @@ ASSUMPTIONS = [
 BOUNDS = {"quick": dict(domain_objects=4, leaves="L<=2", history_ops=3), "thorough": dict(domain_objects=5, leaves="L<=3", history_ops=4)}
 LIMITS = {"quick": dict(max_paths=30000, max_wall=200), "thorough": dict(max_paths=400000, max_wall=900)}
 FIDELITY_EVERY = {"quick": 4, "thorough": 2}
-WALL_BUDGET = {"quick": 500, "thorough": 3300}
+WALL_BUDGET = {"quick": 500, "thorough": 3600}
 
 
 class C07(Case):
